@@ -6,7 +6,7 @@
 //	           http.Hijacker, http.Flusher or both (what a recorder, http.TimeoutHandler or HTTP/2 hand to a middleware)
 //	    layer  := kind[/opt]...   kind in stream trace connlimit ratelimit cbreaker roundrobin rebalancer buffer
 //	    opts   := s        sticky session on a balancer (cookie sk<idx>)
-//	              f<code>  breaker fallback = ResponseFallback{code,"text/fb","fb-body"};  fr = RedirectFallback
+//	              f<code>  breaker fallback = ResponseFallback{code,"text/fb","fb-body"};  fr = RedirectFallback, frp = RedirectFallback with PreservePath
 //	              q<n> r<n> m<n>   buffer MaxRequestBodyBytes / MaxResponseBodyBytes / Mem{Request,Response}BodyBytes
 //	              t        buffer Retry("IsNetworkError() && Attempts() <= 2")
 //	              v        the layer's Verbose/Debug option on and a Logger installed (all kinds; trace and ratelimit: Logger only)
@@ -325,6 +325,8 @@ func parseStack(v string) ([]layerSpec, error) {
 				l.sticky = true
 			case o == "fr":
 				l.fb = "r"
+			case o == "frp":
+				l.fb = "rp"
 			case o == "t":
 				l.retry = true
 			case o == "v":
@@ -431,8 +433,8 @@ func build(specs []layerSpec, intervene int, inner http.Handler) (http.Handler, 
 				rdo = append(rdo, cbreaker.RedirectFallbackDebug(true), cbreaker.RedirectFallbackLogger(lg))
 			}
 			switch {
-			case l.fb == "r":
-				fb, e := cbreaker.NewRedirectFallback(cbreaker.Redirect{URL: "http://fallback.verif/x"}, rdo...)
+			case l.fb == "r" || l.fb == "rp":
+				fb, e := cbreaker.NewRedirectFallback(cbreaker.Redirect{URL: "http://fallback.verif/x", PreservePath: l.fb == "rp"}, rdo...)
 				if e != nil {
 					return nil, e
 				}
